@@ -219,10 +219,12 @@ def orphans(path: Path, clean: bool, size: bool, show_all: bool, ignore_old: boo
             for relpath, path in getjobs(p):
                 xpjobs.add(relpath)
 
-    # Now, look at stored jobs
+    # Now, look at stored jobs (a job directory may be referenced through a
+    # link created when fixing deprecated identifiers)
+    referenced = set((jobspath / key).resolve() for key in xpjobs)
     found = 0
     for key, jobpath in getjobs(jobspath):
-        if key not in xpjobs:
+        if key not in xpjobs and jobpath.resolve() not in referenced:
             show(key)
             if clean:
                 logging.info("Removing data in %s", jobpath)
